@@ -66,7 +66,7 @@ type Task struct {
 	waitCond unsafe.Pointer
 	condSeq  uint64
 	waitOnce unsafe.Pointer
-	inOnce   [8]unsafe.Pointer
+	inOnce   []unsafe.Pointer
 	waitStep int
 
 	PanicVal   any
